@@ -20,6 +20,13 @@ theorem writeVal_frames (cfg : Cfg) (σ : Store) (x : String) (v : Val) :
       · exact writeName_frames σ x _
       · rfl
 
+theorem writeSlot_frames (cfg : Cfg) (σ : Store) (k : String) (v : Val) :
+    (writeSlot cfg σ k v).1.frames = σ.frames := by
+  unfold writeSlot
+  split
+  · exact writeVal_frames cfg σ k v
+  · rfl
+
 section
 variable (cfg : Cfg)
 
@@ -121,6 +128,24 @@ theorem fstmt_step {fuel : Nat} (hB : FBlock cfg fuel) (hE : FElifs cfg fuel) (h
     · have := writeVal_frames cfg σ x ‹Val›
       split <;> rename_i heq <;> rw [heq] at this <;> exact this
     · rfl
+  | assignIdx a i e =>
+    simp only [execStmt]
+    repeat' split
+    all_goals first
+      | rfl
+      | (rename_i heq
+         have := congrArg (fun r => r.1.frames) heq
+         simp only [writeSlot_frames] at this
+         exact this.symm)
+  | assignFld s f e =>
+    simp only [execStmt]
+    repeat' split
+    all_goals first
+      | rfl
+      | (rename_i heq
+         have := congrArg (fun r => r.1.frames) heq
+         simp only [writeSlot_frames] at this
+         exact this.symm)
   | ite c t elifs el =>
     simp only [execStmt]
     split
@@ -173,7 +198,7 @@ theorem cycle_frames (p : Program) (fuel : Nat) (st : RunState) :
   split
   · rfl
   · have h : (execBlock cfg fuel 0
-        { vars := st.store.vars, globals := st.store.globals, frames := p.name :: st.store.frames } p.body).1.frames
+        { st.store with frames := p.name :: st.store.frames } p.body).1.frames
         = p.name :: st.store.frames :=
       (exec_frames cfg fuel).2.1 0 _ p.body
     simp only
